@@ -613,7 +613,7 @@ func (w *CliWorld) laneEnabled(l *laneState) bool {
 		if l.lane.WaitEnd && ss.EndStreams == 0 {
 			return false
 		}
-		if l.lane.AfterCancel && l.next == 0 && !w.callers[l.idx].cancelOffered {
+		if l.lane.AfterCancel && l.next == 0 && !w.callers[l.idx].cancelled {
 			return false
 		}
 		if len(ss.RST) > 0 && l.next == 0 {
@@ -840,6 +840,13 @@ func (w *CliWorld) EnvActions() []Action {
 	if w.phase == 0 {
 		for _, c := range w.callers {
 			q := &w.plan.Reqs[c.k]
+			if q.Cancel == "seen-stalled" {
+				// only once the request has reached the scripted server (the cancel then certainly finds a stream to
+				// reset) and the link towards the server is held up (the server will not see the RST_STREAM for a while)
+				if _, ok := w.ridStream[c.k]; !ok || !w.stallC2S {
+					continue
+				}
+			}
 			if q.Cancel != "" && c.started && !c.returned && !c.cancelOffered && c.ctx != nil {
 				c := c
 				acts = append(acts, Action{Name: "cancel caller " + itoa(c.k), Env: true, Weight: 3, Run: func() {
@@ -868,7 +875,7 @@ func (w *CliWorld) EnvActions() []Action {
 			if f.AfterOps >= 0 && w.opsSent < f.AfterOps {
 				// a stalled link is also released once the scripted server has nothing left that it may send:
 				// the credit it waits for can only be behind the stall
-				if !(f.Kind == "unstall-c2s" && w.stallC2S && !w.anyLaneEnabled()) {
+				if !(f.Kind == "unstall-c2s" && w.stallC2S && !w.anyLaneEnabled() && !w.cancelsPending()) {
 					continue
 				}
 			}
@@ -882,6 +889,16 @@ func (w *CliWorld) EnvActions() []Action {
 		}
 	}
 	return acts
+}
+
+// cancelsPending: callers that are to cancel behind the stalled link and have not done so yet.
+func (w *CliWorld) cancelsPending() bool {
+	for _, c := range w.callers {
+		if w.plan.Reqs[c.k].Cancel == "seen-stalled" && c.started && !c.returned && !c.cancelled {
+			return true
+		}
+	}
+	return false
 }
 
 func (w *CliWorld) anyLaneEnabled() bool {
